@@ -432,6 +432,19 @@ func init() {
 			fmt.Println("INFRA: vacuous enumeration: no crash point was exercised")
 			return 2
 		}
+		// explored part: the cluster explorer on the real storages with crashes
+		// armed at mutating file-system calls (not only at the scripted schedules
+		// above); "the cluster keeps all safety properties": monitor violations of
+		// C01, C02, C04, C06, C07, C08 are C14 violations here
+		cl := []plan{{"filearm3-d2", 60}, {"filearmsnap3-d2", 120}}
+		if tier == "thorough" {
+			cl = []plan{{"filearm3-d3", 600}, {"filearmsnap3-d3", 900}, {"filearm2-d4", 300}}
+		}
+		reported := map[string]bool{}
+		cc, cex, code := runClusterPlansAlso(prop, cl, rep, reported, []string{"C01", "C02", "C04", "C06", "C07", "C08"})
+		if code != 0 {
+			return code
+		}
 		samples := []any{}
 		for _, i := range []int{0, len(pts) / 2, len(pts) - 1} {
 			samples = append(samples, map[string]any{"scenario": c14Scenarios[pts[i].Scenario].Name, "node": pts[i].Node, "crash_before_mutating_call": pts[i].Call, "torn_write_bytes": pts[i].Partial})
@@ -439,8 +452,8 @@ func init() {
 		ev := &common.Evidence{PropertyID: prop, Tier: tier, Seed: common.Seed(), Level: "fault_enumeration", WallS: time.Since(t0).Seconds(), Violations: len(rep.Violations),
 			Coverage: map[string]any{"evaluations": total.Runs, "distinct_nontrivial": total.Crashed,
 				"rule":    "for each scripted cluster schedule on the real file-backed storages: every mutating file-system call (mkdir, create, temp file, write, truncate, rename, remove) issued by every node after its boot is a crash point (kill before the call = kill after the previous one; one extra point after the last call; writes additionally with torn prefixes); the node is restarted over the same directory at once (second level: and killed again at every mutating call of that restart, then restarted once more), nodes the script left down are restarted, then 150 fault-free heartbeat intervals follow; oracle: constructors and Start succeed, no fatal exit or panic, safety monitors (C01, C02, C06, C07, C08, C10) hold throughout, one leader, a fresh operation completes and every member reaches the leader's applied sequence; non-trivial = runs in which the planned call was reached and the node was killed there (each crash point is distinct by construction)",
-				"samples": samples, "scenarios": info, "crash_points": len(pts), "second_level_runs": total.Nested, "outcomes": total.Outcomes, "exhaustive": !total.Deadline},
-			Assumptions: []string{"process-crash fault model (completed calls durable, in-flight write leaves a prefix); one crash per run plus, for every crash point, a second crash of the same node at every mutating call of its recovery; the crashed node is restarted immediately", "fixed scripted schedules (11 scenarios) under canonical goroutine scheduling"}}
+				"samples": samples, "scenarios": info, "crash_points": len(pts), "second_level_runs": total.Nested, "outcomes": total.Outcomes, "exhaustive": !total.Deadline && cex, "explored_part": cc},
+			Assumptions: []string{"process-crash fault model (completed calls durable, in-flight write leaves a prefix); one crash per run plus, for every crash point, a second crash of the same node at every mutating call of its recovery; the crashed node is restarted immediately", "fixed scripted schedules (11 scenarios) under canonical goroutine scheduling, plus the explored part (suites filearm*: every event sequence within budgets and deviation bound on the real storages, with a crash armed before any of the next 8-12 mutating file-system calls of a node)"}}
 		if err := ev.Write(); err != nil {
 			fmt.Println("INFRA:", err)
 			return 2
